@@ -67,6 +67,11 @@ pub struct GenCfg {
     /// no module can see both (short names are otherwise unique in a program). `Known::name` is stale
     /// for such programs: only for checks that work from the program itself.
     pub alias_types: u64,
+    /// a struct is packed with probability 1/packed_den (when `packed` is on)
+    pub packed_den: u64,
+    /// a type may derive, in another module, from a type that has a private virtual function (the
+    /// wrappers then do not compile: finding F20; only for checks that read the output with syn)
+    pub allow_f20: bool,
 }
 
 impl GenCfg {
@@ -106,6 +111,8 @@ impl GenCfg {
             clash_field_renames: false,
             vft_base_anywhere: false,
             alias_types: 0,
+            packed_den: 7,
+            allow_f20: false,
         }
     }
     pub fn layout_only(w: u64) -> GenCfg {
@@ -552,7 +559,7 @@ impl<'t, 'd> Gen<'t, 'd> {
     fn gen_type(&mut self, m: usize) -> bool {
         let w = self.cfg.w;
         let name = self.fresh("T");
-        let packed = self.cfg.packed && self.t.chance(1, 7);
+        let packed = self.cfg.packed && self.t.chance(1, self.cfg.packed_den.max(1));
         let mut td = TypeDef {
             sty: self.sty(),
             vis: self.vis(),
@@ -571,7 +578,7 @@ impl<'t, 'd> Gen<'t, 'd> {
                 .filter(|&k| {
                     let kn = &self.known[k];
                     kn.kind == "struct"
-                        && (kn.module == m || (kn.vis && !kn.private_vfunc && kn.hier_pub))
+                        && (kn.module == m || (kn.vis && (!kn.private_vfunc || self.cfg.allow_f20) && kn.hier_pub))
                         && (!packed || kn.packed || self.cfg.allow_packed_embed)
                 })
                 .collect();
@@ -1097,7 +1104,7 @@ impl<'t, 'd> Gen<'t, 'd> {
                     format!("#include <not_rust_{}.h> PV_OTHER_{}", g.counter, g.counter)
                 }
             };
-            let form = self.t.below(3) as u8;
+            let form = self.t.below(4) as u8;
             let (p, e) = match form {
                 1 => (Some(mk(self, "PRO")), None),
                 2 => (None, Some(mk(self, "EPI"))),
